@@ -1974,6 +1974,7 @@ func genC11(g *G, sc *Scenario, tier string, seed uint64) {
 		sc.Faults = append(sc.Faults, Fault{At: g.Pick([]string{"sink.dataset", "sink.dataset", "transform.batch", "StoreEntities.dataCommit"}), Hit: g.Range(1, 12), Kind: "error"})
 	}
 	ntasks := g.Range(2, 4)
+	dsMgmt := !focused && g.P(0.3)
 	for t := 0; t < ntasks; t++ {
 		var ops []Op
 		for n := g.Range(3, 9); n > 0; n-- {
@@ -2000,6 +2001,11 @@ func genC11(g *G, sc *Scenario, tier string, seed uint64) {
 					ops = append(ops, Op{K: "deleteJob", S: id})
 				}
 			default:
+				if dsMgmt && g.P(0.35) {
+					// a client deletes (and later re-creates) a dataset that jobs read from or write to, whatever they are doing
+					ops = append(ops, Op{K: g.Pick([]string{"deleteDataset", "deleteDataset", "createDataset"}), DS: g.Pick(data)})
+					break
+				}
 				ops = append(ops, Op{K: "sleep", N: g.PickInt([]int{1, 300, 1100, 2300, 5200, 12500})})
 			}
 		}
@@ -2007,4 +2013,32 @@ func genC11(g *G, sc *Scenario, tier string, seed uint64) {
 	}
 	sc.Knobs["schedSeed"] = int64(g.r.Uint64() >> 1)
 	sc.Knobs["preemptPct"] = int64(g.PickInt([]int{5, 20, 40}))
+	if !focused && g.P(0.12) {
+		// second focused variant: the sink (or source) dataset of a copy job disappears at some point of a run a
+		// client has started, and may come back
+		jt := g.Pick([]string{"fullsync", "fullsync", "incremental"})
+		cfg := map[string]any{"id": "job1", "title": "title-job1", "source": map[string]any{"Type": "DatasetSource", "Name": "dA"}, "sink": map[string]any{"Type": "DatasetSink", "Name": "dC"},
+			"paused": true, "batchSize": float64(g.Range(1, 3)), "triggers": []any{map[string]any{"triggerType": "cron", "jobType": jt, "schedule": "@every 8760h"}}}
+		sc.Ops[len(sc.Ops)-njobs] = Op{K: "addJob", M: cfg}
+		var ents []Ent
+		for i := g.Range(2, 6); i > 0; i-- {
+			ents = append(ents, Ent{"id": fmt.Sprintf("%se%d", MkE, i), "props": map[string]any{MkS + "v": float64(g.Intn(1000))}, "refs": map[string]any{}})
+		}
+		sc.Ops = append([]Op{{K: "batch", DS: "dA", Ents: ents}}, sc.Ops...)
+		sc.Tasks[0] = append([]Op{{K: "runJob", S: "job1", DS: jt}}, sc.Tasks[0]...)
+		victim := g.Pick([]string{"dC", "dC", "dA"})
+		drop := []Op{{K: "deleteDataset", DS: victim}}
+		if g.P(0.6) {
+			pts := []string{"pipeline.full.afterStart", "pipeline.full.afterBatch", "pipeline.full.afterBatch", "pipeline.full.beforeEnd"}
+			if jt == "incremental" {
+				pts = []string{"pipeline.incr.afterSink", "pipeline.incr.afterToken"}
+			}
+			drop[0].M = map[string]any{"after": g.Pick(pts), "hit": g.Range(1, 4)}
+		}
+		if g.P(0.5) {
+			drop = append(drop, Op{K: "createDataset", DS: victim})
+		}
+		sc.Tasks = append(sc.Tasks, drop)
+		sc.Knobs["preemptPct"] = int64(g.PickInt([]int{20, 40, 60}))
+	}
 }
